@@ -411,7 +411,7 @@ pub fn run_random_logs(seed: u64, opts: &Opts, st: &mut Stats) -> History {
     let coinj = |a: u128, d: &str| json!({"amount": a.to_string(), "denom": d});
     let n = r.range(1, 6);
     for i in 0..n {
-        let id = if r.chance(30) { uuid(seed * 100 + i).replace('-', "") } else { uuid(seed * 100 + i) };
+        let id = if r.chance(30) { uuid(seed.wrapping_mul(100).wrapping_add(i)).replace('-', "") } else { uuid(seed.wrapping_mul(100).wrapping_add(i)) };
         let with_fee = r.chance(60);
         let nev = r.below(7);
         let mut evs = vec![];
